@@ -20,7 +20,9 @@ class C09(EngineProp):
     rule = ('as C07 with cancellation-heavy scripts: cancel injected at any position incl. "request and cancel in one read", "cancel racing completion", "response racing cancel"; '
             'cancel() on each of the library\'s stream sources; CANCEL frames against a real server; disposal of Rx result observables; and the library\'s own canceller - a CollectorSubscriber '
             '(limit rate 1..5, limit count a multiple of it or not) on a real client against a real server serving a generator source, every frame delivered in a loop turn of its own: '
-            'one CANCEL, nothing collected beyond the limit, the application\'s generator not advanced after the source was cancelled')
+            'one CANCEL, nothing collected beyond the limit, ' +
+            'plus the two-endpoint scenario of C10 with requests of 0..6 fragments cancelled at once or after a few deliveries (the CANCEL must reach the wire after the last fragment of its request; no producer left alive on the peer), ' +
+            ' the application\'s generator not advanced after the source was cancelled')
     assumptions = ['the peer is protocol-legal']
 
     def cases(self, rng, tier):
@@ -53,10 +55,19 @@ class C09(EngineProp):
             out.append({'mode': 'collector-pair', 'role': 'both', 'profile': 'collector-pair', 'kind': rng.choice(['gen', 'agen']), 'L': L,
                         'C': rng.choice([L, 2 * L, 2 * L, 3 * L, L + 1, 1, 4]), 'count': rng.choice([12, 20]), 'channel': rng.random() < 0.7,
                         'open_upstream': rng.random() < 0.7, 'seed': rng.getrandbits(30)})
+        # two real endpoints (the pair scenario of C10): requests of 0..6 fragments cancelled at once or after a few deliveries; judged here for
+        # "the CANCEL reaches the peer after the whole request, and the peer's producer is cancelled"
+        for _ in range(200 if tier == 'quick' else 4000):
+            plans = [{'kind': rng.choice(['rr', 'stream', 'channel']), 'size': rng.choice([0, 30, 200, 400]), 'n0': rng.choice([1, 2, 2 ** 31 - 1]),
+                      'cancel': rng.choice([0, 0, 0, 1, 2, 3])} for _ in range(rng.randint(1, 3))]
+            out.append({'mode': 'pair', 'role': 'both', 'profile': 'pair-cancel', 'kind': 'pair', 'seed': rng.getrandbits(32), 'tcp': False, 'frag': rng.choice([64, 64, None]), 'plans': plans})
         return out
 
     def run_impl(self, case):
         from harness import detloop, sources
+        if case.get('mode') == 'pair':
+            from harness.props import c10
+            return detloop.run(c10.pair_scenario, case)
         if case.get('mode') == 'collector-pair':
             return detloop.run(self._collector_pair, case)
         if case.get('mode') == 'source':
@@ -181,23 +192,23 @@ class C09(EngineProp):
         return res
 
     def model_lines(self, case, obs):
-        if case.get('mode') in ('source', 'wire-cancel', 'rx-dispose', 'collector-pair'):
+        if case.get('mode') in ('source', 'wire-cancel', 'rx-dispose', 'collector-pair', 'pair'):
             return []
         return super().model_lines(case, obs)
 
     def compare(self, case, obs, answers):
-        if case.get('mode') in ('source', 'wire-cancel', 'rx-dispose', 'collector-pair'):
+        if case.get('mode') in ('source', 'wire-cancel', 'rx-dispose', 'collector-pair', 'pair'):
             return None
         return super().compare(case, obs, answers)
 
     def nontrivial(self, case, obs):
-        if case.get('mode') in ('source', 'wire-cancel', 'rx-dispose', 'collector-pair'):
+        if case.get('mode') in ('source', 'wire-cancel', 'rx-dispose', 'collector-pair', 'pair'):
             import json
             return json.dumps(case, sort_keys=True)
         return super().nontrivial(case, obs)
 
     def stats(self, case, obs):
-        if case.get('mode') in ('source', 'wire-cancel', 'rx-dispose', 'collector-pair'):
+        if case.get('mode') in ('source', 'wire-cancel', 'rx-dispose', 'collector-pair', 'pair'):
             yield 'mode=' + case['mode']
             yield 'kind=' + case['kind']
             return
@@ -216,6 +227,12 @@ class C09(EngineProp):
             return
         if case.get('mode') in ('rx-dispose', 'collector-pair'):
             return
+        if case.get('mode') == 'pair':
+            pl = case['plans']
+            for i in range(len(pl)):
+                if len(pl) > 1:
+                    yield dict(case, plans=pl[:i] + pl[i + 1:])
+            return
         yield from super().shrink_candidates(case)
 
     def _source_oracle(self, case, obs):
@@ -224,6 +241,29 @@ class C09(EngineProp):
         if case['mode'] == 'rx-dispose':
             from harness.props import c20
             return [f for f in c20.PROP.oracle(case['c20'], obs) if f['signature'].split(':')[0] in ('dispose-does-not-cancel', 'signals-after-dispose')]
+        if case['mode'] == 'pair':
+            wire = obs.get('client_wire') or []
+            last_req, cancel_at = {}, {}
+            open_req = set()
+            for i, (sid, ty, follows) in enumerate(wire):
+                if ty in ('RequestResponseFrame', 'RequestStreamFrame', 'RequestChannelFrame'):
+                    last_req[sid] = i
+                    if follows:
+                        open_req.add(sid)
+                elif ty == 'PayloadFrame' and sid in open_req:
+                    last_req[sid] = i
+                    if not follows:
+                        open_req.discard(sid)
+                elif ty == 'CancelFrame':
+                    cancel_at.setdefault(sid, i)
+            for sid, ic in cancel_at.items():
+                if sid in open_req or (sid in last_req and ic < last_req[sid]):
+                    fails.append({'signature': 'cancel-overtakes-request', 'what': 'CANCEL for stream %d reached the transport (wire position %d) before the last fragment of the request frame of that stream (%s): the peer drops it and its producer is never cancelled' % (
+                        sid, ic, 'position %d' % last_req[sid] if sid not in open_req else 'never completed')})
+            if not obs['unfinished'] and all(pl['cancel'] is not None for pl in case['plans']) and (obs['stuck_publishers'] or obs.get('pending_handler_futures')):
+                fails.append({'signature': 'producer-survives-cancel:pair', 'what': 'every interaction was cancelled by its requester, yet at quiescence %d publishers are still live and %d handler futures still pending on the peer' % (
+                    obs['stuck_publishers'], obs.get('pending_handler_futures', 0))})
+            return fails
         if case['mode'] == 'collector-pair':
             C, n = case['C'], case['count']
             how = 'CollectorSubscriber(limit_rate=%d, limit_count=%d) on a request-%s served by a %s source of %d elements' % (case['L'], C, 'channel' if case['channel'] else 'stream', k, n)
@@ -266,7 +306,7 @@ class C09(EngineProp):
         return fails
 
     def oracle(self, case, obs):
-        if case.get('mode') in ('source', 'wire-cancel', 'rx-dispose', 'collector-pair'):
+        if case.get('mode') in ('source', 'wire-cancel', 'rx-dispose', 'collector-pair', 'pair'):
             return self._source_oracle(case, obs)
         fails = []
         steps = obs['steps']
